@@ -171,7 +171,8 @@ def writer_chains(lines):
     out = []
     for ch, ops in chains.items():
         n = max(k for k, _ in ops)
-        if n > 160:
+        if n > 12:
+            out.append(None)      # longer than the trace configuration's N: not mapped
             continue
         plan = [[] for _ in range(n)]
         for k, op in ops:
